@@ -174,6 +174,25 @@ def run_shard(shard, tier, seed, wd, res):
             b = bytearray(rng.getrandbits(8) for _ in range(n))
             b[0] = (b[0] & 0x1f) | (0xc0 if comp else 0x40) | (rng.getrandbits(1) << 5)
             emit(b)
+        # several dirty bytes that cancel under a fold (equal bytes: XOR; b and 256-b: sum; equal 8-byte words: word XOR;
+        # bytes AND-ing to zero): a zero test implemented as a reduction over the payload must not be fooled
+        for _ in range(6):
+            i1, i2 = sorted(rng.sample(range(1, n), 2))
+            v = rng.randrange(1, 256)
+            for v2 in (v, (256 - v) % 256 or 1, v ^ 0xff):
+                b = bytearray(base)
+                b[i1], b[i2] = v, v2
+                emit(b)
+            w1, w2 = sorted(rng.sample(range(1, n // 8), 2))
+            word = bytes(rng.getrandbits(8) for _ in range(8))
+            b = bytearray(base)
+            b[8 * w1:8 * w1 + 8] = word
+            b[8 * w2:8 * w2 + 8] = word
+            emit(b)
+            b = bytearray(base)
+            b[i1] = v
+            b[0] ^= v                     # cancels against the flag byte itself
+            emit(b)
         # one dirty byte near either end of the payload x every placement of the object
         for pos in list(range(1, 9)) + list(range(n - 8, n)):
             for place in PLACES:
